@@ -28,7 +28,9 @@ Classes ==
     matches   |-> {"absent", "undefined", "local_ok", "self_cycle", "mutual_cycle", "cycle_via_relation",
                    "cycle_via_sibling_key", "cycle_all_and_any", "cycle_via_ofrule",
                    \* the document read as a GLOBAL utility file: its local utils refer back to its own id
-                   "global_self_via_local_utils"},
+                   "global_self_via_local_utils",
+                   \* 36 utilities in a chain, each naming the next one twice (any: [next, all: [kind, next]]): no cycle, linear work
+                   "deep_chain_two_refs"},
     cons      |-> {"absent", "valid", "sigil_key", "lowercase_key", "wrong_type", "undefined_key"},
     transform |-> {"absent", "substring", "empty_source", "no_sigil_source", "lone_sigil_source", "multibyte_source",
                    "bad_replace_regex", "bad_case", "undefined_rewriter", "huge_index", "self_cycle", "unknown_kind",
